@@ -51,6 +51,8 @@ o P2 240102#N2 todo with prio w0
 - 240104#U4 untouched four
 - {t}#N5 created today w0
 - {t}#U5 untouched five
+x P1 240107#N7 finished task
+~ 240108#N8 dropped task
 
 {H1R} Sec s0
 
@@ -63,7 +65,7 @@ o P2 240102#N2 todo with prio w0
 EDIT_WORD = {"edit_N1": "#N1", "edit_N2": "#N2", "edit_N3": "#N3", "edit_N4": "#N4", "edit_N5": "#N5",
              "edit_N6": "#N6"}
 EVENTS = list(EDIT_WORD) + ["edit_bullet", "kind_N2", "prio_N2", "add_note", "edit_header",
-                            "edit_section", "edit_Q1", "swap_N1_U1", "R", "D"]
+                            "edit_section", "edit_Q1", "swap_N1_U1", "prio_N7", "kind_N8", "R", "D"]
 
 
 def apply_edit(zd: Path, ev: str, guards: dict) -> bool:
@@ -117,6 +119,18 @@ def apply_edit(zd: Path, ev: str, guards: dict) -> bool:
         return True
     if ev == "prio_N2":
         new = re.sub(r"(?m)^([ox]) P2 ((?:\d{6} )?240102#N2)", r"\1 P5 \2", t)
+        if new == t:
+            return False
+        p.write_text(new)
+        return True
+    if ev == "prio_N7":
+        new = re.sub(r"(?m)^x P1 ((?:\d{6} )?240107#N7)", r"x P3 \1", t)
+        if new == t:
+            return False
+        p.write_text(new)
+        return True
+    if ev == "kind_N8":
+        new = re.sub(r"(?m)^~ ((?:\d{6} )?240108#N8)", r"x \1", t)
         if new == t:
             return False
         p.write_text(new)
